@@ -41,10 +41,10 @@ def load_docs(text):
 
 def ast(relpath, filt, extra=()):
     """clang JSON AST of every declaration of /repo/<relpath> whose qualified name contains `filt` (cached per tree stamp)"""
-    src = os.path.join(REPO, relpath)
+    src = os.path.join(REPO, relpath)      # an absolute path (instantiation driver under /verif/contracts: only #include + explicit instantiation) is taken as is
     if not os.path.exists(src):
         raise Undecided('front end: %s missing' % relpath)
-    key = sha256(relpath + '|' + filt + '|' + ' '.join(extra) + '|' + native.tree_stamp())[:20]
+    key = sha256(relpath + '|' + filt + '|' + ' '.join(extra) + '|' + native.tree_stamp() + (open(src).read() if os.path.isabs(relpath) else ''))[:20]
     cache = os.path.join(workdir('ast'), key + '.json')
     if not os.path.exists(cache):
         cmd = ['clang++', '-std=c++17', '-fsyntax-only', '-DNDEBUG', '-w'] + native.include_flags() + list(extra) + \
@@ -1263,6 +1263,8 @@ class Exec:
                 return Ref(lambda nm=nm: s.env[nm], lambda v, nm=nm: s.env.__setitem__(nm, v))
             if nm in ('cout', 'cerr', 'endl', 'flush'):
                 return 'ostream'
+            if rd.get('kind') in ('CXXMethodDecl', 'FunctionDecl'):
+                return ('function', nm)         # a function named as a value (pointer to member / function pointer): an opaque token
             if 'global' in s.cb:
                 return s.cb['global'](nm)
             raise Unsupported('unknown name %s at line %s' % (nm, src_line(n)))
@@ -1351,6 +1353,8 @@ class Exec:
         nm = s.lhs_name(lnode) if lnode is not None else None
         if nm is not None:
             r = s.opaque_hook(nm, r)
+        if 'destroy' in s.cb and isinstance(cur, dict) and cur.get('__class__') and cur is not r:
+            s.cb['destroy'](cur)       # assignment to an owning pointer destroys the previous pointee (ghost event for contracts that depend on object lifetime)
         if isinstance(cur, Mx) and isinstance(r, Mx):
             cur.assign(r)
             return
@@ -1391,6 +1395,13 @@ class Exec:
             return Ref(lambda: obj[i], lambda v: obj.__setitem__(i, v))
         if hasattr(obj, 'index_ref'):
             return obj.index_ref(idx)
+        if isinstance(obj, str):
+            i = _i(idx[0])
+            if isinstance(i, int) and 0 <= i < len(obj):
+                return obj[i]
+            if isinstance(i, int) and i == len(obj):
+                return '\0'
+            raise Unsupported('string index %r outside the string' % (i,))
         raise Unsupported('index on %r' % type(obj))
 
     def construct(s, n):
@@ -1464,6 +1475,10 @@ class Exec:
             return args[0]      # smart pointer dereference: the pointee
         if op == 'operator-' and len(args) == 1:
             return -a0
+        if op == 'operator!' and len(args) == 1:
+            if 'stream_fail' in s.cb:
+                return s.cb['stream_fail'](a0)
+            raise Unsupported('operator! on %r without a contract (stream_fail)' % type(a0).__name__)
         if op in ('operator++', 'operator--'):
             v = rval(args[0])
             if hasattr(v, 'advance'):
@@ -1569,6 +1584,7 @@ class Exec:
                 del obj[k:]
                 return None
             if name == 'reserve': return None
+            if name == 'data': return obj
         if isinstance(obj, str):
             if name in ('c_str', 'data', 'str'): return obj
             if name in ('size', 'length'): return len(obj)
@@ -1593,7 +1609,10 @@ class Exec:
         name = s.callee_name(n['inner'][0])
         argn = [a for a in n['inner'][1:] if a['kind'] != 'CXXDefaultArgExpr']
         if name in s.cb:
-            return s.cb[name](*[rval(s.expr(a)) for a in argn])
+            f = s.cb[name]
+            if getattr(f, 'by_ref', False):       # contract with out-parameters: the callback receives the lvalues
+                return f(*[s.expr(a) for a in argn])
+            return f(*[rval(s.expr(a)) for a in argn])
         args = [rval(s.expr(a)) for a in argn]
         ty = n['type']['qualType']
         if name in ('Zero', 'Ones', 'Identity', 'UnitX', 'UnitY', 'UnitZ', 'Constant'):
